@@ -1,3 +1,4 @@
+import Dbg.Model.ExtsOps
 import Dbg.Driver.C14
 import Dbg.Model.KmerIter
 /-! C13: k-mer extraction across containers; C12: reverse complement across containers and extension sets. -/
@@ -103,6 +104,15 @@ def handle (args : List String) (impl : String) : R Ans :=
 /-- C12 on extension sets: `exts <hex>` -/
 def handleExts (args : List String) (impl : String) : R Ans :=
   match args with
+  | ["extsops", h1, h2, d, b, sq, st, ln] => do
+    let e1 : Compress.Exts := ⟨← hex h1⟩; let e2 : Compress.Exts := ⟨← hex h2⟩
+    let d ← if d == "L" then pure Walk.Dir.L else if d == "R" then pure Walk.Dir.R else throw "bad-dir"
+    let b ← nat b; let sq ← natDigits sq; let st ← nat st; let ln ← nat ln
+    let l := fun (v : List Nat) => if v.isEmpty then "-" else String.join (v.map toString)
+    let o := fun (v : Option Compress.Base) => match v with | some x => toString x.val | none => "-"
+    let fsb := match Compress.Exts.fromSliceBounds sq st ln with | some e => toHex e.val 2 | none => "panic"
+    let model := s!"add={toHex (e1.add e2).val 2} set={toHex (Graph.Exts.set e1 d b).val 2} merge={toHex (Compress.Exts.merge e1 e2).val 2} fsd={toHex (Compress.Exts.fromSingleDirs e1 e2).val 2} getL={l (e1.get .L)} getR={l (e1.get .R)} has={if e1.hasExt d b then 1 else 0} numL={e1.numExtDir .L} numR={e1.numExtDir .R} uqL={o (e1.uniqueExt .L)} uqR={o (e1.uniqueExt .R)} sdL={toHex (e1.singleDir .L).val 2} sdR={toHex (e1.singleDir .R).val 2} mkl={toHex (Compress.Exts.mkLeft b).val 2} mkr={toHex (Compress.Exts.mkRight b).val 2} mk={toHex (Compress.Exts.mkBoth b (3 - b)).val 2} fsb={fsb} fds={fsb} dbg={String.ofList (e1.debug.map Char.ofNat)}"
+    pure { model, verdict := if impl == "panic" then "FAIL:panic-in-range" else "ok" }
   | ["exts", h] => do
     let v ← hex h
     let e : Compress.Exts := ⟨v⟩
